@@ -371,6 +371,7 @@ REWRITES_DOC = {
     'R22': 'a trait impl that no longer defines a method under contract: the PROVIDED method of the trait declaration is verified in its place, with Self = the implementing type (what Rust runs when an override is removed)',
     'R23': 'a type that no longer implements Drop: the drop glue (the fields that implement Drop in this crate are dropped in declaration order) is written out and verified against the contract stated for dropping the type',
     'R24': 'a NEW override of a provided trait method inside a trait impl of the unit: woven as it is and verified against the contract the model trait states for that method (Verus checks every method of an impl against the trait contract)',
+    'R4b-rename': 'a method of a trait impl that is statically dispatched in the crate (std traits: Drop, Default, From, AsRef, Deref, Index; the crate-local operation traits) woven as an inherent function of the type, under another name where the trait method name would clash (`drop` -> `drop_impl`, `from` -> `from_bit_vector`, total variants `get` -> `get_total`, the state-passing variant `advance_if` -> `advance_if_st`): Verus takes no contract on the impl of an external trait',
     'R15': 'fully qualified `std::cmp::f` / `core::cmp::f` -> `cmp::f` (the path through the crate\'s own `use std::cmp;`; both name the function the model module cmp declares)',
     'R8': 'struct fields widened to pub inside the unit',
     'R1': 'doc comments / #[inline] / derives dropped',
@@ -601,6 +602,16 @@ def rw_checked_index(text):
                 d_ -= 1
             j_ += 1
         if j_ >= len(text) or text[j_] != ']' or '..' in text[m_.end():j_]:
+            continue
+        mw_ = re.match(r'\s*(?:[-+*/%&|^]|<<|>>)?=(?!=)', text[j_ + 1:])
+        if mw_:
+            # a checked WRITE `X[i] op= E;` (IndexMut panics exactly when Index would): the statement is kept and preceded by a checked read of
+            # the same element, which returns only for an index inside the vector
+            ls_ = text.rfind('\n', 0, m_.start()) + 1
+            if text[ls_:m_.start()].strip() == '':
+                out_.append(text[pos_:m_.start()])
+                out_.append('let _ = verif_checked_index(&%s, %s); ' % (m_.group(1), text[m_.end():j_].strip()))
+                out_.append(text[m_.start():j_ + 1]); pos_ = j_ + 1; k_ += 1
             continue
         out_.append(text[pos_:m_.start()]); out_.append('verif_checked_index(&%s, %s)' % (m_.group(1), text[m_.end():j_].strip())); pos_ = j_ + 1; k_ += 1
     out_.append(text[pos_:])
